@@ -48,7 +48,12 @@ fn main() {
         }
     }
     // the lax representation composes to the same gluing (operands may carry pending unifications of their own)
-    let (lsl, lsr) = if quick { (Spec::lax(2, 1, 1, 1, 1, 1, 2, 1), Spec::lax(2, 1, 1, 1, 1, 2, 1, 1)) } else { (Spec::lax(2, 1, 1, 2, 1, 1, 2, 1), Spec::lax(2, 1, 1, 2, 1, 2, 1, 1)) };
+    // discrete operands on <=3 nodes with BOTH interfaces up to length 3 (one label): identity-shaped non-identities,
+    // legs that pass a checksum of a permutation, ... on either side
+    let disc = Spec { n_min: 0, n_max: 3, e_min: 0, e_max: 0, ks: 0, kt: 0, lw: 1, lx: 1, a: 3, b: 3, q: 0 }.universe().all_open();
+    let nd = disc.len() as u64;
+    ctx.run_slice(Slice::new(format!("glue-discrete[{}^2 edge-free diagrams on <=3 nodes, interfaces <=3 on both sides]", nd), nd * nd, |i, loc| check_pair::<B>(&disc[(i / nd) as usize], &disc[(i % nd) as usize], loc)));
+    let (lsl, lsr) = if quick { (Spec::lax(2, 1, 1, 1, 1, 2, 2, 1), Spec::lax(2, 1, 1, 1, 1, 2, 2, 1)) } else { (Spec::lax(2, 1, 1, 2, 1, 2, 2, 1), Spec::lax(2, 1, 1, 2, 1, 2, 2, 1)) };
     let ll: Vec<_> = lsl.universe().all().into_iter().filter(|l| l.label_consistent()).collect();
     let lr: Vec<_> = lsr.universe().all().into_iter().filter(|l| l.label_consistent()).collect();
     let nlr = lr.len() as u64;
